@@ -179,6 +179,10 @@ def rand_op() -> str:
     return operators[random.randint(0, len(operators) - 1)]
 
 
+def _variable_pool(common: bool) -> List[str]:
+    return common_variables if common else variables
+
+
 def get_rand_vars(
     num_vars: int,
     exclude_vars: Optional[List[str]] = None,
@@ -189,20 +193,12 @@ def get_rand_vars(
         exclude_vars = []
     if num_vars > 25:
         raise ValueError("out of range: there are only twenty-six variables")
-    rand_vars: Set[str] = set()
-    iters = 0
-    while len(rand_vars) < num_vars:
-        _rand = rand_var(common_variables)
-        if _rand not in exclude_vars:
-            rand_vars.add(_rand)
-        iters += 1
-        if iters > num_vars * 10:
-            raise ValueError(
-                f"Unable to fulfill request for {num_vars} random variables"
-            )
-    out = list(rand_vars)
-    random.shuffle(out)
-    return out
+    available = [v for v in _variable_pool(common_variables) if v not in exclude_vars]
+    if num_vars > len(available):
+        raise ValueError(
+            f"Unable to fulfill request for {num_vars} random variables"
+        )
+    return random.sample(available, num_vars)
 
 
 def gen_binomial_times_binomial(
